@@ -413,7 +413,7 @@ pub fn gen_c16<W: Write>(out: &mut W, thorough: bool, seed: u64) {
         let rule = ["linear", "log_linear", "linear_zero_rate", "flat_forward", "flat_backward"][i % 5];
         let ad = (i / 5) % 3;
         let nn = r.range(2, 6) as usize;
-        let mut d = r.range(10000, 20000);
+        let mut d = if r.chance(1, 2) { r.range(-3650, 11600) } else { r.range(10000, 20000) };
         let mut nt = Vec::new();
         for _ in 0..nn {
             let v = if rule == "log_linear" || rule == "linear_zero_rate" { r.logu(1e-3, 1e3) } else { any_finite(&mut r) };
@@ -424,6 +424,16 @@ pub fn gen_c16<W: Write>(out: &mut W, thorough: bool, seed: u64) {
         writeln!(out, "curve 8 {} {} c{} {} {} {}", rule, ad, i % 7, base, nn, nt.join(" ")).unwrap();
         writeln!(out, "ser curve 8").unwrap();
         writeln!(out, "rt curve 8").unwrap();
+        // the same nodes through the public `CurveDF` constructor and its own `to_json` / `from_json`
+        writeln!(out, "curvedf 9 {} c{} {} {} {}", rule, i % 7, base, nn, nt.join(" ")).unwrap();
+        if ad > 0 {
+            writeln!(out, "cvorder 9 {}", ad).unwrap();
+        }
+        writeln!(out, "cvjson 9").unwrap();
+        writeln!(out, "cvnodes 9").unwrap();
+        writeln!(out, "cvad 9").unwrap();
+        // documents as written by to_json: of the form the document theorems quantify over, and accepted
+        crate::load::emit_written(out, &mut r, 5);
         // splines of the three types, solved and unsolved
         let kind = ["f", "1", "2"][i % 3];
         let k = r.range(2, 4) as usize;
